@@ -122,31 +122,36 @@ CHECKS['C14'] = dict(
          "injectivity and prefix-freeness of the encoding on a synthetic schema. For each of the ~730 supported bundled constructors (base value, "
          "flag combinations, string/bytes boundary lengths, vector lengths, polymorphic alternatives) the library's bytes must equal the spec's "
          "encoding and parse back to the same value consuming all bytes; BlockIdExt helpers on boundary values.",
-    note="schema reader and dict<->value conversion in tlkit.py are glue (the reader is checked by TLC through Render and the id); strings ASCII; bytes values that are themselves TL objects are out of scope",
+    note="schema reader and dict<->value conversion in tlkit.py are glue (the reader is checked by TLC through Render and the id); text strings UTF-8; bytes values that are themselves TL objects are out of scope",
     tech="TLA+ TL encoding spec evaluated by TLC on recorded serialisations (trace validation) + TLC lemma (unique decodability) + TLC-checked schema transcription", ref="8/C14")
-TLBNOTE = "TlbSchema.tla is a hand transcription of block.tlb; attribute-path aliases and representation normalisation live in tlbkit.py (glue); constructor labels are not compared"
+TLBNOTE = "TlbSchema.tla is a hand transcription of block.tlb; attribute-path aliases and representation normalisation live in tlbkit.py (glue); constructors are compared through the label table TlbSchema!Labels"
 CHECKS['C15'] = dict(
     text="Messages are specified as logical values with the set of all placements (state-init inline/ref x body inline/ref) that fit a cell "
-         "(TonMsg.Encodings over the TL-B interpreter). For ~1500 header x state-init x body combinations around the joint bit/reference "
-         "boundary TLC checks that the library's cell is one of the valid encodings and that serialisation does not fail when one exists, and "
-         "the parser is run on EVERY fitting encoding produced by the specification; stand-alone wrappers (StateInit, CurrencyCollection, "
-         "wallet v3/v4 data, NFT data, HashUpdate) are compared with the unique spec encoding and parsed back.",
+         "(TonMsg.Encodings over the TL-B interpreter; addresses incl. anycast). For ~2400 header x state-init x body combinations at the bit "
+         "and reference boundary of EVERY placement TLC checks that the library's cell is one of the valid encodings and that serialisation "
+         "does not fail when one exists, and the parser is run on EVERY fitting encoding produced by the specification; stand-alone wrappers "
+         "(StateInit, CurrencyCollection, wallet v3/v4 data, NFT data, HashUpdate) are compared with the unique spec encoding and parsed back; "
+         "value-isolation histories (default-constructed / parsed values edited in place must not leak into later values).",
     note=TLBNOTE + "; serialisation direction restricted to canonical (minimal var-int) values; highload wallet query dictionary not covered",
-    tech="TLA+ TL-B interpreter + message placement spec; TLC encodes driver-composed values (spec -> code) and validates recorded cells/fields (code -> spec)", ref="8/C15")
+    tech="TLA+ TL-B interpreter + message placement spec; TLC encodes driver-composed values (spec -> code) and validates recorded cells/fields (code -> spec)", ref="8/C15, 13")
 CHECKS['C16'] = dict(
-    text="A TL-B interpreter in TLA+ (schemas as data, generic encoder, leaf flattener with the abstract value each leaf must parse to) over a "
-         "transcription of 45+ block.tlb types; TLC checks tag prefix-freeness and generates the base value and every one-factor variation "
-         "(all constructor alternatives, Maybe/Either sides, flags, boundary leaves incl. top-bit-set and non-minimal integers, extra-currency "
-         "and validator dictionaries) with its encoding; the library parses each and TLC compares every leaf and the consumed bits/refs.",
-    note=TLBNOTE + "; types covered are listed in the evidence file (Transaction/InMsg/OutMsg/AccountBlock/McStateExtra not yet transcribed)",
-    tech="TLC-generated TL-B values and encodings replayed into the parsers; recorded field values validated by TLC leaf by leaf", ref="8/C16")
+    text="A TL-B interpreter in TLA+ (schemas as data, generic encoder, generic DECODER, leaf flattener with the abstract value each leaf must "
+         "parse to) over a transcription of 60 block.tlb types (all seven transaction descriptions and phases, Transaction, Account, "
+         "ShardAccount, AccountBlock, InMsg x9, OutMsg x10, envelopes v1/v2, BlockInfo, ValueFlow x2, ShardDescr x2, ValidatorSet x2, "
+         "McStateExtra, McBlockExtra, BlockExtra, Block ...). TLC checks tag prefix-freeness and decode(encode(v)) = v on every generated "
+         "value; it generates, per type, a zero and a rich base value, one-factor variations around both, every combination of optional "
+         "parts, and (thorough) two-factor variations; the library parses each and TLC compares every leaf, the constructor label and the "
+         "consumed bits/refs. The bundled main-net block is decoded by the specification and compared with the library's Block object.",
+    note=TLBNOTE + "; types covered are listed in the evidence file; ShardStateUnsplit and the Merkle update of the block are not transcribed; root extras of HashmapAugE are not exposed by the library and not compared",
+    tech="TLC-generated TL-B values and encodings replayed into the parsers; recorded field values validated by TLC leaf by leaf; real block decoded by the TLA+ schema decoder", ref="8/C16, 13")
 CHECKS['C17'] = dict(
     text="TonVm encodes stacks (VmStackList chaining, tinyint/int257 selection, tuples with VmTupleRef nil/single/any, cells, slices, builders, "
-         "ten continuation kinds). For hundreds of random and boundary stacks the library serialises twice with a snapshot of the caller's "
-         "values in between; TLC checks the cell equals the spec encoding, the caller's values are unchanged and the second cell is equal; "
-         "the library parses the specification's encoding and TLC compares the values.",
-    note="TonVm transcription; control data of vmc_std/vmc_envelope only in its empty form; slices in their canonical VmCellSlice form",
-    tech="TLA+ VmStack encoder: TLC-encoded stacks replayed into the parser and recorded serialisations validated by TLC (incl. caller-state frame)", ref="8/C17")
+         "ten continuation kinds with full control data: nargs, saved stack, saved registers, codepage - zero values included). For hundreds "
+         "of random and boundary stacks the library serialises twice with a snapshot of the caller's values in between; TLC checks the cell "
+         "equals the spec encoding, the caller's values are unchanged and the second cell is equal; the library parses the specification's "
+         "encoding twice (incl. non-canonical VmCellSlice windows) and TLC compares the values of both parses.",
+    note="TonVm transcription; values whose encoding needs more than 4 references in one cell are not representable and nothing is demanded for them",
+    tech="TLA+ VmStack encoder: TLC-encoded stacks replayed into the parser and recorded serialisations validated by TLC (incl. caller-state frame)", ref="8/C17, 13")
 NOT_APPLICABLE = []
 def main():
     checks = []
